@@ -41,6 +41,9 @@ def cases(tier, seed):
     return out
 
 
+QUERY_KEY = "k3+/= %&x"   # a key with characters that are reserved in a query string: the server must decode exactly this
+
+
 def make_plugin(name, plugins_mod):
     if name == "bearer":
         return plugins_mod.BearerAuth("tok1")
@@ -49,7 +52,7 @@ def make_plugin(name, plugins_mod):
     if name == "key-authz":
         return plugins_mod.ApiKeyAuth("k2", "header", "Authorization")
     if name == "key-query":
-        return plugins_mod.ApiKeyAuth("k3", "query", "api_key")
+        return plugins_mod.ApiKeyAuth(QUERY_KEY, "query", "api_key")
     if name == "key-cookie":
         return plugins_mod.ApiKeyAuth("k4", "cookie", "sid")
     if name == "hdr-extra":
@@ -60,6 +63,9 @@ def make_plugin(name, plugins_mod):
         return plugins_mod.OAuth2Auth("oa")
     if name == "oauth-refresh":
         async def refresh(old):
+            import asyncio as _a
+
+            await _a.sleep(0)   # a refresh that really suspends, as a network call does
             return "new-" + old
 
         return plugins_mod.OAuth2Auth("old", refresh)
@@ -81,7 +87,7 @@ def reference(seq, defaults, req_headers, bearer_token, k=0):
             elif p == "key-authz":
                 h["Authorization"] = "k2"
             elif p == "key-query":
-                q["api_key"] = "k3"
+                q["api_key"] = QUERY_KEY
             elif p == "key-cookie":
                 c["sid"] = "k4"
             elif p == "hdr-extra":
